@@ -96,7 +96,7 @@ def main(argv=None):
         # watchdog: an in-process solver call that ignores its own timeout (seen once with z3 on a sequence VC: a worker spinning for half an
         # hour) must not hang the check - the units that did not finish in time are run once more in fresh processes; a unit that does not
         # finish then either is a checker error (exit 3), never a verdict
-        limit = int(os.environ.get("PYVC_UNIT_DEADLINE", "3600" if tier == "thorough" else "1500"))
+        limit = int(os.environ.get("PYVC_UNIT_DEADLINE", "2400" if tier == "thorough" else "600"))
         done, pending = {}, list(range(len(units)))
         for _attempt in (1, 2):
             if not pending:
